@@ -227,7 +227,12 @@ class AArr:
             return ops.s_not(eq_value(x, 0))
         if axis is None:
             return ops.s_and(*[nz(x) for x in self.data])
-        raise OutOfSubset('all(axis)')
+        if self.ndim != 2:
+            raise OutOfSubset('all(axis) on non-matrix')
+        r, c = self.shape
+        if axis == 0:
+            return AArr((c,), [ops.s_and(*[nz(self.data[i * c + j]) for i in range(r)]) for j in range(c)], 'bool')
+        return AArr((r,), [ops.s_and(*[nz(self.data[i * c + j]) for j in range(c)]) for i in range(r)], 'bool')
 
     def __repr__(self):
         return f'AArr{self.shape}{self.data}'
